@@ -2513,4 +2513,94 @@ theorem frun_others (cfg : FCfg) (u : Tid) : ∀ (sched : List Tid) (s : FState)
 
 end Full
 
+
+/-! ## worker objects -/
+namespace Workers
+
+/-- a call in flight on a private worker has emitted exactly the names below its counter, and counter + bumps left is
+    the size of the call at the head of `todo` -/
+def runOk (th : WThread) : Prop :=
+  match th.run with
+  | none => True
+  | some (r, c, e) => e = List.range c ∧ ∃ rest, th.todo = (r + c) :: rest
+
+def wfinal (th : WThread) : List (List Nat) := th.results ++ th.todo.map List.range
+
+structure WInv (progs : Tid → List Nat) (s : WState) : Prop where
+  ok : ∀ t, runOk (s.threads t)
+  fin : ∀ t, wfinal (s.threads t) = wseq (progs t)
+
+theorem WInv.init (progs : Tid → List Nat) : WInv progs (winit progs) := by
+  constructor <;> intro t <;> simp [winit, runOk, wfinal, wseq]
+
+theorem WInv.step {cfg : WCfg} (hc : cfg.cached = false) {progs : Tid → List Nat} {s s' : WState} {t : Tid}
+    (h : WInv progs s) (hs : wstep cfg s t = some s') : WInv progs s' := by
+  have hok := h.ok t
+  have hfin := h.fin t
+  -- the step only touches thread t
+  suffices hT : runOk (s'.threads t) ∧ wfinal (s'.threads t) = wfinal (s.threads t) ∧
+      ∀ u, u ≠ t → s'.threads u = s.threads u by
+    constructor
+    · intro u
+      by_cases hu : u = t
+      · subst hu; exact hT.1
+      · rw [hT.2.2 u hu]; exact h.ok u
+    · intro u
+      by_cases hu : u = t
+      · subst hu; rw [hT.2.1]; exact hfin
+      · rw [hT.2.2 u hu]; exact h.fin u
+  unfold wstep at hs
+  split at hs
+  · rename_i r c e hrun
+    simp only [Option.some.injEq] at hs
+    subst hs
+    unfold runOk at hok
+    simp only [hrun] at hok
+    obtain ⟨he, rest, htodo⟩ := hok
+    unfold wstepRun
+    cases r with
+    | zero =>
+      refine ⟨?_, ?_, fun u hu => by simp [wset, hu]⟩
+      · simp [wset, runOk]
+      · simp [wset, wfinal, htodo, he]
+    | succ r' =>
+      simp only [hc, Bool.false_eq_true, if_false]
+      refine ⟨?_, ?_, fun u hu => by simp [wset, hu]⟩
+      · simp only [wset, runOk, if_true]
+        refine ⟨?_, rest, ?_⟩
+        · rw [he, List.range_succ]
+        · rw [htodo]; congr 1; omega
+      · simp [wset, wfinal]
+  · rename_i hrun
+    split at hs
+    · simp at hs
+    · rename_i k rest htodo
+      simp only [hc, Bool.false_eq_true, if_false, Option.some.injEq] at hs
+      subst hs
+      refine ⟨?_, ?_, fun u hu => by simp [wset, hu]⟩
+      · simp [wset, runOk, htodo]
+      · simp [wset, wfinal]
+
+inductive WReach (cfg : WCfg) (s0 : WState) : WState → Prop
+  | init : WReach cfg s0 s0
+  | next {s s' : WState} {t : Tid} : WReach cfg s0 s → wstep cfg s t = some s' → WReach cfg s0 s'
+
+theorem WInv.reach {cfg : WCfg} (hc : cfg.cached = false) {progs : Tid → List Nat} {s : WState}
+    (h : WReach cfg (winit progs) s) : WInv progs s := by
+  induction h with
+  | init => exact WInv.init progs
+  | next _ hs ih => exact ih.step hc hs
+
+theorem wreach_wrun {cfg : WCfg} {s0 s : WState} (h : WReach cfg s0 s) (sched : List Tid) :
+    WReach cfg s0 (wrun cfg s sched) := by
+  induction sched generalizing s with
+  | nil => exact h
+  | cons t ts ih =>
+    simp only [wrun]
+    split
+    · rename_i s' hs; exact ih (.next h hs)
+    · exact ih h
+
+end Workers
+
 end SqlglotModel.Threads
